@@ -1,6 +1,10 @@
 package core
 
 import (
+	schema "github.com/jsightapi/jsight-schema-core"
+	"github.com/jsightapi/jsight-schema-core/notations/jschema"
+	"github.com/jsightapi/jsight-schema-core/notations/regex"
+
 	"github.com/jsightapi/jsight-api-core/directive"
 	"github.com/jsightapi/jsight-api-core/jerr"
 )
@@ -81,6 +85,10 @@ func (core *JApiCore) collectPathVariables(d *directive.Directive) *jerr.JApiErr
 		return d.KeywordError(err.Error())
 	}
 
+	if je := core.checkPathBody(d); je != nil {
+		return je
+	}
+
 	path, err := d.Path()
 	if err != nil {
 		return d.KeywordError(err.Error())
@@ -111,5 +119,34 @@ func (core *JApiCore) collectPathVariables(d *directive.Directive) *jerr.JApiErr
 		parameters:      pp,
 	})
 
+	return nil
+}
+
+// checkPathBody validates the body of the Path directive as an ordinary schema:
+// the path variables are assembled from pieces of it and are compiled only when
+// the catalog is serialized.
+func (core *JApiCore) checkPathBody(d *directive.Directive) *jerr.JApiError {
+	s := jschema.New("", d.BodyCoords.Read())
+
+	for n, r := range core.rules {
+		if err := s.AddRule(n, r); err != nil {
+			return jschemaToJAPIError(err, d)
+		}
+	}
+
+	err := core.userTypes.Each(func(k string, v schema.Schema) error {
+		if _, ok := v.(*regex.RSchema); ok {
+			// Adding a regex type takes an example from its generator, which would
+			// change the example in the catalog: work with a copy.
+			v = regex.New(k, core.rawUserTypes.GetValue(k).BodyCoords.Read())
+		}
+		return s.AddType(k, v)
+	})
+	if err == nil {
+		err = s.Check()
+	}
+	if err != nil {
+		return jschemaToJAPIError(err, d)
+	}
 	return nil
 }
